@@ -10,9 +10,14 @@
  *     owns the chosen SIGCHLD interest -- queues a second and third status for the interest while its owner
  *     may be running the completion of the first one; the status handler does not unregister on
  *     stopped / continued;
- *   - ended either from the death callback (mode 0) or (M9) from a timeout close to the child's death that
- *     calls iv_wait_interest_kill(SIGTERM) and unregisters while the reaper in another thread may be setting
- *     the DEAD flag (mode 1).
+ *   - ended from the death callback (mode 0); or (M9, mode 1) from a timeout close to the child's death that
+ *     calls iv_wait_interest_kill(SIGTERM / SIGKILL) and unregisters at once, while the reaper in another
+ *     thread may be setting the DEAD flag; or (modes 2 and 3, half of the jobs) by a plain
+ *     iv_wait_interest_unregister from the owner's timer a moment (0-2 ms, around the reaping) AFTER the child
+ *     died -- by itself (mode 2) or from a SIGTERM sent earlier (mode 3) -- without waiting for the death
+ *     callback and without any other call into iv_wait in between: the reaper (two times out of three another
+ *     thread) has just written the interest, and the owner has not synchronised with it through the lock or
+ *     through the death notification.  If the death callback wins the race the job ends there.
  * Every signal to a child goes through iv_wait_interest_kill on a registered interest (DEAD flag under
  * iv_wait_lock), never through a raw kill(): the pid of a reaped child may already be somebody else's.
  * A job that ends first kills its child (SIGKILL also ends a stopped child); children die with their parent
@@ -50,15 +55,16 @@ struct job {
 	struct iv_timer		to;		/* end of the job (mode 1) / safety net (mode 0) */
 	struct iv_timer		sg;		/* stop / continue script */
 	int			live;		/* interest registered */
-	int			mode;		/* 0: unregister in the death callback; 1: from the timeout */
+	int			mode;		/* 0: unregister in the death callback; 1: kill + unregister from the timeout;
+						 * 2, 3: plain unregister from a timer just after the death */
 	int			sgstep;		/* 0: SIGSTOP due, 1: SIGCONT due */
 	long			sg_us[2];
 	int			nstatus;	/* statuses delivered for this child */
 };
 
-enum { C_SPAWN, C_PLAIN, C_UNREG, C_KILL, C_KILL_ESRCH, C_STOP, C_CONT, C_STATUS, C_STOPPED, C_CONTINUED, C_DEAD,
+enum { C_SPAWN, C_PLAIN, C_UNREG, C_UNREG_LATE, C_KILL, C_KILL_ESRCH, C_STOP, C_CONT, C_STATUS, C_STOPPED, C_CONTINUED, C_DEAD,
        C_MULTI, C_TIMEOUT_END, C_SIG, C_NCOUNT };
-static const char *cname[C_NCOUNT] = { "register_spawn", "register_plain", "unregister", "kill", "kill_esrch", "stop_sent",
+static const char *cname[C_NCOUNT] = { "register_spawn", "register_plain", "unregister", "unregister_after_death_timer", "kill", "kill_esrch", "stop_sent",
 	"cont_sent", "statuses", "stopped", "continued", "dead", "multi_status_jobs", "timeout_ends", "signals" };
 
 struct thr {
@@ -127,8 +133,11 @@ static void job_finish(struct job *j)
 	if (iv_timer_registered(&j->sg))
 		iv_timer_unregister(&j->sg);
 	if (j->live) {
-		/* the child may be alive, stopped, dying in another thread's reaper right now, or long gone */
-		job_kill(j, SIGKILL);
+		/* the child may be alive, stopped, dying in another thread's reaper right now, or long gone.
+		 * Modes 2 and 3 never stop their child and it ends by itself within milliseconds: no kill, the
+		 * unregistration must be the first call into iv_wait since the child died */
+		if (j->mode < 2)
+			job_kill(j, SIGKILL);
 		iv_wait_interest_unregister(&j->wi);
 		t->cnt[C_UNREG]++;
 		j->live = 0;
@@ -158,7 +167,7 @@ static void job_status(void *cookie, int status, const struct rusage *ru)
 	if (!WIFEXITED(status) && !WIFSIGNALED(status))
 		return;
 	j->t->cnt[C_DEAD]++;
-	if (j->mode == 0)
+	if (j->mode != 1)
 		job_finish(j);
 }
 
@@ -170,6 +179,8 @@ static void job_timeout(void *cookie)
 	j->t->cnt[C_TIMEOUT_END]++;
 	if (j->mode == 1)
 		job_kill(j, SIGTERM);
+	if (j->mode >= 2)
+		j->t->cnt[C_UNREG_LATE]++;
 	job_finish(j);
 }
 
@@ -177,6 +188,11 @@ static void job_sigstep(void *cookie)
 {
 	struct job *j = cookie;
 
+	if (j->mode == 3) {
+		/* the child dies now; the unregistration follows 0-2 ms later (timer `to`) */
+		job_kill(j, SIGTERM);
+		return;
+	}
 	if (j->sgstep == 0) {
 		job_kill(j, SIGSTOP);
 		j->t->cnt[C_STOP]++;
@@ -206,9 +222,11 @@ static void start_job(struct job *j)
 	struct thr *t = j->t;
 	long child_us = 3000 + rand_r(&t->seed) % 6000;
 	int plain = rand_r(&t->seed) % 2;
-	int stopcont = rand_r(&t->seed) % 4 != 0;
+	int stopcont = rand_r(&t->seed) % 8 != 0;
+	int m = rand_r(&t->seed) % 8;
+	long late_us = rand_r(&t->seed) % 2000;
 
-	j->mode = rand_r(&t->seed) % 2;
+	j->mode = m < 2 ? 0 : m < 4 ? 1 : m < 6 ? 2 : 3;
 	j->nstatus = 0;
 	j->live = 0;
 	IV_WAIT_INTEREST_INIT(&j->wi);
@@ -262,9 +280,23 @@ static void start_job(struct job *j)
 	}
 	j->live = 1;
 	j->to.handler = job_timeout;
-	/* mode 1: a timeout close to the child's life time; mode 0: a generous safety net */
-	timer_in(&j->to, j->mode ? child_us + rand_r(&t->seed) % 400 : 300000L);
-	if (stopcont) {
+	if (j->mode == 0) {
+		/* a generous safety net */
+		timer_in(&j->to, 300000L);
+	} else if (j->mode == 1) {
+		/* a timeout close to the child's life time */
+		timer_in(&j->to, child_us + rand_r(&t->seed) % 400);
+	} else if (j->mode == 2) {
+		/* the child exits by itself after child_us */
+		timer_in(&j->to, child_us + late_us);
+	} else {
+		/* SIGTERM somewhere in the child's life, the unregistration a moment later */
+		long term_us = 500 + rand_r(&t->seed) % (child_us - 500);
+
+		timer_in(&j->sg, term_us);
+		timer_in(&j->to, term_us + late_us);
+	}
+	if (stopcont && j->mode < 2) {
 		j->sgstep = 0;
 		j->sg_us[0] = 100 + rand_r(&t->seed) % 2000;
 		j->sg_us[1] = 1000 + rand_r(&t->seed) % 3000;
